@@ -7,7 +7,7 @@
     boundaries (so str_up_to / str_from cannot panic) is C01_find_offset_is_boundary. *)
 From KV Require Import Base.Prelude Model.Search Spec.Search Model.Split Spec.Split Proofs.SplitProofs.
 From KV Require Import Spec.Utf8 Proofs.SplitEmptyProofs Proofs.SplitRevProofs Proofs.SplitDequeProofs.
-From KV Require Base.Deque.
+From KV Require Base.Deque Proofs.RevAnywhereProofs.
 Local Open Scope nat_scope.
 
 (** [split]: running [next] to exhaustion ends within [split_fuel] steps and yields the
@@ -91,6 +91,11 @@ Theorem C06_split_refines_deque : forall d, unbordered d -> forall hist h,
   Deque.run _ _ (fun s => to_opt (split_next s)) (fun s => to_opt (split_next_back s)) hist (split_init h d)
   = Deque.deque_run hist (pieces d h).
 Proof. exact split_refines_deque. Qed.
+Theorem C06_split_rev_anywhere_deque : forall d, unbordered d -> forall h1 h2 h,
+  Deque.run _ _ (fun s => to_opt (split_next_back s)) (fun s => to_opt (split_next s)) h2
+      (RevAnywhereProofs.state_after _ _ (fun s => to_opt (split_next s)) (fun s => to_opt (split_next_back s)) h1 (split_init h d))
+  = Deque.deque_run h2 (rev (RevAnywhereProofs.deque_rest h1 (pieces d h))).
+Proof. exact RevAnywhereProofs.split_rev_anywhere_deque. Qed.
 (** the hypothesis is satisfiable: "é" (C3 A9), a 4-byte character, and the history F B F on
     "a,b,c" / "," pops a, c, b *)
 Example C06_unbordered_examples : unbordered [195; 169]%Z /\ unbordered [240; 159; 167; 160]%Z /\
@@ -141,3 +146,4 @@ Print Assumptions C06_rsplit_rev_is_split.
 Print Assumptions C06_pieces_rel.
 Print Assumptions C06_split_refines_deque.
 Print Assumptions C06_unbordered_examples.
+Print Assumptions C06_split_rev_anywhere_deque.
